@@ -27,7 +27,7 @@ def parseTokenX (l : Line) : Token :=
 /-- key set the statement speaks about for this verifier / token (for a long-lived remote key set: what its
     endpoint served it last, `ks.` on the line) -/
 def keySetFor (l : Line) (t : Token) : KeySet :=
-  if str l "verifier" == "assertion" then
+  if str l "verifier" == "assertion" && str l "v.ks" != "explicit" then
     let iss := ((t.middle.bind (·.claims)).map (·.iss)).getD ""
     Hand.jwtProfileKeySet (parseRegistry l) iss
   else parseKeySet l "ks."
@@ -35,8 +35,23 @@ def keySetFor (l : Line) (t : Token) : KeySet :=
 def obsString (l : Line) : String :=
   if str l "obs" == "ok" then "ok" else if str l "obs" == "panic" then "panic" else "err:" ++ str l "o.err"
 
+/-- a token-consuming ENDPOINT believed the token (`obs=ok`): it handed subject `o.sub` (and token id `o.jti`) to the storage.
+    The claims "handed back" are the payload's with the subject the endpoint used; an access token's id must be the payload's `jti`. -/
+def endpointObs (l : Line) (t : Token) : Option Claims :=
+  if str l "obs" == "ok" then some { (t.middle.bind (·.claims)).getD {} with sub := str l "o.sub" } else none
+
+def monitorEndpoint (l : Line) : Option String :=
+  let t := parseTokenX l
+  -- the allow-list in force is the one the provider was CONFIGURED with (`v.algs`; empty: the library default)
+  -- (an assertion: the library default list and the keys registered for the client the assertion names, `keySetFor`)
+  match C02.monitor (list l "v.algs") (keySetFor l t) t (endpointObs l t) with
+  | some c => some c
+  | none =>
+    if str l "obs" == "ok" && str l "t.jti" != "" && str l "o.jti" != str l "t.jti" then some "accepted:claims-changed" else none
+
 def monitorLine (l : Line) : Option String :=
   if str l "obs" == "panic" then some "panic" else
+  if has l "ep" then monitorEndpoint l else
   if str l "verifier" == "fmk" then
     -- direct key selection: the observed answer must be the one the statement describes
     let ks := parseKeySet l "ks."
